@@ -6,6 +6,7 @@
 package plat
 
 import (
+	"os"
 	"fmt"
 	"reflect"
 	"unsafe"
@@ -81,6 +82,20 @@ func injectEngine(s *simulation.Simulation, e sim.Engine) {
 
 // Build assembles the platform. It must be called inside the synctest bubble.
 func Build(spec Spec, ch *choice.Source, scratch string) *Platform {
+	if f := os.Getenv("VERIF_DEBUG_SPEC"); f != "" && spec.Timing {
+		// diagnosis aid only (never set by registered commands): "sa,cu,permute,mini" overrides the drawn timing platform shape
+		var sa, cu int
+		var permute, mini bool
+		fmt.Sscanf(f, "%d,%d,%t,%t", &sa, &cu, &permute, &mini)
+		spec.Permute = permute
+		if !mini {
+			spec.Mini = nil
+		} else if spec.Mini != nil {
+			k := *spec.Mini
+			k.NumSA, k.NumCUPerSA = sa, cu
+			spec.Mini = &k
+		}
+	}
 	p := &Platform{Spec: spec}
 	mode := simengine.Faithful
 	if spec.Permute {
